@@ -26,3 +26,4 @@ open Csproto
 #print axioms Csproto.Bridge.WireFuncs.DecodeFixed32_short
 #print axioms Csproto.Bridge.WireFuncs.DecodeFixed64_ok
 #print axioms Csproto.Bridge.WireFuncs.DecodeFixed64_short
+#print axioms Csproto.Bridge.WireFuncs.translated_varint_roundtrip
